@@ -518,6 +518,8 @@ def run(ctx):
             mm, e2 = ctx.coq_mismatches("shrink", HEADER, "c12case", "check_c12case", [case_lit(s, h, o, rs2, st2)])
             return bool(mm)
         small = shrink_history(size, H, ops, disagrees) if len(ops) <= 10 else ops
+        if not exact_failure(size, H, small) and exact_failure(size, H, ops):
+            small = ops                     # keep the history on which the property itself fails
         m2, rs2, st2 = run_history(size, H, small)
         model = ctx.coq_eval(HEADER, f"let ops := {lit.lst([mc.op_lit(o) for o in small])} in "
                                      f"(mtrace ops (init_state {lit.q(size)} {lit.q(H)}), "
